@@ -83,6 +83,7 @@ type ExploreOpts struct {
 	BudgetIsFinding bool
 	MaxFindings     int
 	SolverName      string
+	MaxDecisions    int
 }
 
 func (w *World) newInterp(s *Solver, opts *ExploreOpts) *Interp {
@@ -101,6 +102,11 @@ func (w *World) newInterp(s *Solver, opts *ExploreOpts) *Interp {
 		Stats:       &RunStats{},
 	}
 	in.Cfg.Tier = opts.Tier
+	in.Deadline = opts.Deadline
+	in.MaxDecisions = opts.MaxDecisions
+	if in.MaxDecisions == 0 {
+		in.MaxDecisions = 400
+	}
 	return in
 }
 
@@ -311,6 +317,8 @@ func (w *World) Explore(name string, opts ExploreOpts) *HarnessReport {
 				rep.UnsupportedM[res.Msg]++
 			case "budget", "alloc":
 				rep.Budget++
+			case "deadline":
+				rep.Incomplete = true
 			case "panic":
 				rep.Panics++
 			case "internal":
